@@ -13,7 +13,7 @@ import (
 
 func init() {
 	register("C06",
-		"that a year has 12 or 13 months of 29/30 days, year lengths, contiguity of months, and the agreement of neighbouring years' tables (all numeric in the new-moon computation); whether the explicit leap-11/leap-12 override years are the right ones.",
+		"that a year has 12 or 13 months of 29/30 days, year lengths, contiguity of months and the agreement of neighbouring years' tables on the real ephemeris (numeric in the new-moon computation; R06.5/R06.6 follow the construction and the month walk on a synthetic one, scenario by scenario); whether the explicit leap-11/leap-12 override years are the right ones.",
 		r06_1, r06_2, r06_3, r06_4, r08_8, r08_6, r06_5, r06_6)
 }
 
